@@ -538,7 +538,13 @@ def rule_three_valued(ctx: Ctx) -> None:
                         # path-sensitive: can the test be reached at all while the value is None (flags set on the way are followed)?
                         from ..flow import reachable_tracking_flags
 
-                        r_ = reachable_tracking_flags(cfg, d, st, {f"{name} is None": True}, start=cfg.node(tri_vars[name]))
+                        # in `a and <name>...` the name is only looked at when `a` held: the operands to its left must be satisfiable on arrival
+                        before = None
+                        if isinstance(test, ast.BoolOp) and isinstance(test.op, ast.And):
+                            idx = next((i for i, v_ in enumerate(test.values) if any(isinstance(x, ast.Name) and x.id == name for x in ast.walk(v_))), 0)
+                            if idx > 0:
+                                before = ast.BoolOp(op=ast.And(), values=list(test.values[:idx])) if idx > 1 else test.values[0]
+                        r_ = reachable_tracking_flags(cfg, d, st, {f"{name} is None": True}, start=cfg.node(tri_vars[name]), at_target=before)
                         if r_ is None:
                             ctx.add("6-gate", fn, cfg.stmt[st], None, f"UNDECIDED: whether `{name}` can still be None at `{norm(test)[:40]}` (too many conditions to enumerate)", key=f"three-valued {fn.name}.{name} {norm(test)[:30]}")
                             continue
